@@ -14,7 +14,8 @@ RULE = ("Cases = pairs of equal-length arrays whose run boundaries are drawn ind
         "side, unary ufuncs, reductions sum/any/all/mean (np.<f> and method) and max(), np.histogram (int bins and explicit "
         "edges, finite values), np.concatenate of 1-4 arrays.  Oracle = the same numpy call on the decoded operands: values, "
         "dtype, numpy's own refusals; operands unmodified; results canonical (C14 predicate).  Non-trivial = both operands "
-        "have >= 2 runs with at least one coincident and one non-coincident boundary (binary), otherwise >= 2 runs.")
+        "have >= 2 runs with at least one coincident and one non-coincident boundary (binary), otherwise >= 2 runs."
+        "  Element types incl. uint16/32/64; operands whose values coincide or differ by one across element types; mean over full-range 64-bit integers (exact rational reference, tolerance 1e-12 * sum|a| / n).")
 ASSUMPTIONS = ["the oracle uses the decoded operands (encoding merges -0.0 with 0.0)",
                "reductions are compared by value (sum/mean magnitudes bounded so that float64 is exact; mean within 2 ulp); "
                "their scalar type is not asserted",
@@ -191,6 +192,9 @@ def body_hist(case, ctx):
     kw = {"bins": bins}
     if case["range"] is not None:
         kw["range"] = tuple(case["range"])
+    if case.get("density") is not None:
+        kw["density"] = case["density"]
+        ctx.label("density:%s" % case["density"])
     exp = lib(lambda: np.histogram(da, **kw))
     got = lib(lambda: np.histogram(x, **kw))
     if not exp.ok:
@@ -198,7 +202,13 @@ def body_hist(case, ctx):
         return
     if not got.ok or not isinstance(got.value, tuple) or len(got.value) != 2:
         raise Violation("histogram:result", got=got.brief())
-    if not arrays_equal(np.asarray(got.value[0]), exp.value[0]) or not arrays_equal(np.asarray(got.value[1]), exp.value[1]):
+    if case.get("density"):
+        with np.errstate(all="ignore"):
+            same_h = np.asarray(got.value[0]).shape == exp.value[0].shape and bool(
+                np.all(np.isclose(np.asarray(got.value[0], dtype=float), exp.value[0], rtol=1e-12, atol=0, equal_nan=True)))
+    else:
+        same_h = arrays_equal(np.asarray(got.value[0]), exp.value[0])
+    if not same_h or not arrays_equal(np.asarray(got.value[1]), exp.value[1]):
         raise Violation("histogram:values", expected=jsonable(list(exp.value)), got=jsonable(list(got.value)))
     unchanged(x, da, "histogram-a")
 
@@ -381,7 +391,7 @@ def hist_case(draw, tier):
     ca, va = draw(operand(tier, dta, n, specials=False, mag=100))
     bins = draw(st.one_of(st.integers(1, 12), st.sampled_from([[-5, 0, 1, 2, 200], [0, 1], [-100.5, -1, 0.5, 3, 100.5], [0, 0.25, 0.5, 1, 50]])))
     rng = draw(st.sampled_from([None, None, [-10, 10], [0, 100]])) if isinstance(bins, int) else None
-    return {"n": n, "dta": dta, "ca": ca, "va": va, "bins": bins, "range": rng}
+    return {"n": n, "dta": dta, "ca": ca, "va": va, "bins": bins, "range": rng, "density": draw(st.sampled_from([None, None, True, False]))}
 
 
 @st.composite
